@@ -77,7 +77,7 @@ def _gen_tree(rng, family, max_junctions, sorted_labels, thermal, kinds, big_lab
     cnt = _Counter(rng, sorted_labels)
     all_kinds = ["pipe_std", "valve", "pump", "compressor", "flow_control", "press_control",
                  "heat_exchanger", "mass_storage", "source", "second_feeder", "valve_pi",
-                 "heights", "sections", "closed_valve", "oos", "nan_load", "trickle"]
+                 "heights", "sections", "closed_valve", "oos", "nan_load", "trickle", "split_feeder"]
     if kinds is None:
         k = rng.randint(0, len(all_kinds))
         kinds = set(rng.sample(all_kinds, k))
@@ -97,10 +97,19 @@ def _gen_tree(rng, family, max_junctions, sorted_labels, thermal, kinds, big_lab
         elif "heights" in kinds:
             kw["height_m"] = _r(rng, 0.0, 40.0, 1)
         ops.append({"fn": "create_junction", "kw": kw})
-    ops.append({"fn": "create_ext_grid", "kw": {"junction": jl[0], "p_bar": p0, "t_k": t0,
-                                                "index": cnt.new("ext_grid"), "type": "pt"}})
+    if "split_feeder" in kinds:
+        # pressure and temperature fixed by two separate external grids at the same junction
+        ops.append({"fn": "create_ext_grid", "kw": {"junction": jl[0], "p_bar": p0, "index": cnt.new("ext_grid"), "type": "p"}})
+        ops.append({"fn": "create_ext_grid", "kw": {"junction": jl[0], "t_k": t0, "index": cnt.new("ext_grid"), "type": "t"}})
+        feeders = [("ext_grid", ops[-2]["kw"]["index"]), ("ext_grid", ops[-1]["kw"]["index"])]
+        t_feeders = [("ext_grid", ops[-1]["kw"]["index"])]
+    else:
+        ops.append({"fn": "create_ext_grid", "kw": {"junction": jl[0], "p_bar": p0, "t_k": t0,
+                                                    "index": cnt.new("ext_grid"), "type": "pt"}})
+        feeders = [("ext_grid", ops[-1]["kw"]["index"])]
+        t_feeders = list(feeders)
     meta = {"family": family, "fluid": fluid, "junctions": list(jl), "loads": [], "branches": [],
-            "thermal": bool(thermal), "feeders": [("ext_grid", ops[-1]["kw"]["index"])],
+            "thermal": bool(thermal), "feeders": feeders, "t_feeders": t_feeders,
             "toggles": [], "kinds": sorted(kinds)}
     special_budget = 2
     pipes = []
